@@ -2,13 +2,21 @@ import Driver.Proto
 import Driver.Ops.Dos
 import Driver.Ops.Read
 import Driver.Ops.Write
+import Driver.Ops.Clones
+import Driver.Ops.Paths
+import Driver.Ops.Text
 /- Dispatch table: op-name prefix → handler (model evaluation → canonical response line).
    One file per stream under `Driver/Ops/`; register it here. -/
 
 namespace Driver
 
 def handlers : List (String × (String → Args → Option String)) :=
-  [ ("dos.", opDos), ("read.", opRead), ("write.", opWrite) ]
+  [ ("dos.", opDos),
+    ("read.", opRead),
+    ("write.", opWrite),
+    ("clones.", opClones),
+    ("paths.", opPaths),
+    ("text.", opText) ]
 
 def dispatch (op : String) (a : Args) : String :=
   match handlers.find? (fun h => op.startsWith h.1) with
